@@ -59,7 +59,37 @@ def run_checker(p):
         return {"error": f"{type(e).__name__}: {e}"}
 
 
+def run_sampled(p):
+    """draw from the environment's own sampler on the given tour until the solver's move shows up (small instances: a few
+    dozen distinct moves exist); report an exception of the sampler, or the invalid tour the move produces"""
+    try:
+        env, gs = _env(p["kind"], p["n"], p.get("k_max", 2))
+        rec = torch.tensor([p["rec"]])
+        td = TensorDict({"visited_time": torch.tensor([_vt(p["rec"])]), "rec_current": rec, "rec_best": rec.clone(), "action_record": torch.zeros(1, gs, max(gs // 2, 1))}, batch_size=[1])
+        target = tuple(p["action"]) if p.get("action") else None
+        seen = set()
+        for seed in range(20000):
+            torch.manual_seed(seed)
+            try:
+                a = tuple(int(x) for x in env._random_action(td)[0].tolist())
+            except Exception as e:  # noqa: BLE001
+                return {"pre_valid": True, "admitted": True, "valid": False, "next": None, "why": f"the environment's move sampler raises at batch size 1: {type(e).__name__}: {str(e)[:120]}"}
+            if a not in seen:
+                seen.add(a)
+                nxt = env._local_operator(rec, torch.tensor([a]))[0].tolist()
+                ok, why = valid_tour(nxt, p["kind"] == "pdp")
+                if not ok:
+                    return {"pre_valid": True, "admitted": True, "valid": False, "next": nxt, "why": f"sampled move {list(a)}: {why}", "action": list(a)}
+            if target is not None and target in seen and seed > 200:
+                break
+        return {"pre_valid": True, "admitted": target in seen if target is not None else True, "valid": True, "next": None, "why": f"{len(seen)} distinct sampled moves, all valid"}
+    except Exception as e:  # noqa: BLE001
+        return {"error": f"{type(e).__name__}: {e}"}
+
+
 def run_move(p):
+    if p.get("sampled"):
+        return run_sampled(p)
     try:
         env, gs = _env(p["kind"], p["n"], p.get("k_max", 2))
         rec = torch.tensor([p["rec"]])
